@@ -375,6 +375,7 @@ func c14ActionCase(c *Case) {
 	b.L(0, "jobs:")
 	var want []c14Finding
 	siteIface := map[int]*c14Iface{} // line of a call site / with key -> interface of the callee
+	lineShape := map[int]string{}    // line of an output reference -> shape of its expression
 	nJobs := 1 + r.Intn(2)
 	stepNo := 0
 	for j := 0; j < nJobs; j++ {
@@ -507,7 +508,10 @@ func c14ActionCase(c *Case) {
 					name = c14Undeclared(r, f.Outputs, func(s string) bool { _, ok := f.output(s); return ok }, map[string]bool{}, nil)
 				}
 				expr, written := c14OutputRef(r, "steps", call.ID, name)
-				line := c14EmitRefStep(b, r, expr)
+				sr := c14RandRef(r, expr)
+				line := c14EmitRef(b, sr)
+				lineShape[line] = sr.Shape
+				c14CoverRef(c, "action", sr, declared)
 				if !declared {
 					want = append(want, c14Finding{c14UndefOutput, strings.ToLower(name), line})
 				} else if written != name {
@@ -532,7 +536,13 @@ func c14ActionCase(c *Case) {
 	if c.Verbose {
 		c14LogFiles(c, files)
 	}
-	classify := func(f c14Finding, missed bool) string { return c14ClassifyAction(f, missed, siteIface[f.Line], caller) }
+	classify := func(f c14Finding, missed bool) string {
+		cls := c14ClassifyAction(f, missed, siteIface[f.Line], caller)
+		if sh, ok := lineShape[f.Line]; ok && f.What == c14UndefOutput {
+			cls += ":shape-" + sh
+		}
+		return cls
+	}
 	c14Compare(c, "action", toDiags(errs), want, nil, nil, classify, detail)
 	for _, f := range want {
 		c.SetAdd("expected_kinds", "action:"+f.What)
@@ -555,21 +565,6 @@ func c14OutputRef(r *Rand, ctx, id, name string) (expr, written string) {
 	}
 	written = c14CaseVariant(r, name)
 	return fmt.Sprintf("%s.%s.outputs.%s", ctx, idw, written), written
-}
-
-// c14EmitRefStep writes one step that evaluates expr in a run script, an env value or an if
-// condition, and returns the line of the expression.
-func c14EmitRefStep(b *YB, r *Rand, expr string) int {
-	switch r.Intn(3) {
-	case 0:
-		return b.L(6, "- run: echo ${{ "+expr+" }}").Line
-	case 1:
-		b.L(6, "- run: echo \"$V\"")
-		b.L(8, "env:")
-		return b.L(10, "V: ${{ "+expr+" }}").Line
-	}
-	b.L(6, "- run: echo conditional")
-	return b.L(8, "if: "+expr+" == 'yes'").Line
 }
 
 func c14PublicFiles(files map[string]string) map[string]string {
@@ -1035,6 +1030,7 @@ func c14WorkflowCase(c *Case) {
 	ignoreType := map[int]bool{}
 	tolTemplate := map[int]bool{}
 	siteIface := map[int]*c14Iface{}
+	lineShape := map[int]string{}
 	var typed []c14TypedSite
 	var calls []*c14WfCall
 	hasMulti := false
@@ -1226,7 +1222,10 @@ func c14WorkflowCase(c *Case) {
 				name = c14Undeclared(r, f.Outputs, func(s string) bool { _, ok := f.output(s); return ok }, map[string]bool{}, nil)
 			}
 			expr, written := c14OutputRef(r, "needs", call.JobID, name)
-			line := c14EmitRefStep(b, r, expr)
+			sr := c14RandRef(r, expr)
+			line := c14EmitRef(b, sr)
+			lineShape[line] = sr.Shape
+			c14CoverRef(c, "workflow", sr, declared)
 			if !declared {
 				want = append(want, c14Finding{c14UndefOutput, strings.ToLower(name), line})
 			} else if written != name {
@@ -1245,7 +1244,11 @@ func c14WorkflowCase(c *Case) {
 		return map[string]interface{}{"files": c14PublicFiles(p.Files), "interfaces": p.Ifaces}
 	}
 	classify := func(f c14Finding, missed bool) string {
-		return c14ClassifyWorkflow(f, missed, siteIface[f.Line], typed)
+		cls := c14ClassifyWorkflow(f, missed, siteIface[f.Line], typed)
+		if sh, ok := lineShape[f.Line]; ok && f.What == c14UndefOutput {
+			cls += ":shape-" + sh
+		}
+		return cls
 	}
 
 	reps := 1
